@@ -206,6 +206,49 @@ def wiskiMeanCache {p : Nat} (K : DMat m m α) (L : DMat m p α) (Bi : DMat p p 
 
 end wiski
 
+/-- non-fast-pred-var `fantasy_covar_cache` inner term: `(K L) (I + Lᵀ K L)⁻¹ (K L)ᵀ` -/
+def wiskiCovarInner {n : Nat} {p : Nat} [Field α] (K : DMat n n α) (L : DMat n p α) (Bi : DMat p p α) : DMat n n α :=
+  (K.mul L).mul (Bi.mul (K.mul L).transpose)
+
+/-! ### Concatenation order of data and fixed noise; keyword routing of `IndependentModelList` -/
+
+section concat
+variable {n f : Nat}
+
+/-- `FixedNoiseGaussianLikelihood.get_fantasy_likelihood`: noise of `[train; fantasy]` = `[old; new]` -/
+def fixedNoiseConcat (old : DMat n 1 α) (new : DMat f 1 α) : DMat (n + f) 1 α := vcat old new
+
+/-- `ExactGP.get_fantasy_model`: `full_targets = cat([train_targets, targets])` (same for the inputs) -/
+def fullTargets (tr : DMat n 1 α) (ft : DMat f 1 α) : DMat (n + f) 1 α := vcat tr ft
+
+end concat
+
+namespace Route
+
+/-- keyword arguments: keyword id ↦ value id (`none` = Python `None`) -/
+abbrev Kw := List (Nat × Option Nat)
+
+def noiseKey : Nat := 0
+
+/-- `{**kw, k: v}` -/
+def setKw (kw : Kw) (k : Nat) (v : Option Nat) : Kw := kw.filter (fun e => e.1 ≠ k) ++ [(k, v)]
+
+/-- Specification of `IndependentModelList.get_fantasy_model`: member `i` receives the common keyword arguments
+plus **its own** entry `noise[i]` when that is not `None`; without a `noise` list every member gets the common
+arguments. -/
+def memberKwargs (common : Kw) (noise : Option (List (Option Nat))) (nMembers : Nat) : List Kw :=
+  match noise with
+  | some ns => ns.map fun nz => match nz with
+      | some v => setKw common noiseKey (some v)
+      | none => common
+  | none => List.replicate nMembers common
+
+/-- member `i` is called with `(inputs[i], targets[i], kwargs[i])` -/
+def memberCalls (inputs targets : List Nat) (kws : List Kw) : List (Nat × Nat × Kw) :=
+  List.zip inputs (List.zip targets kws)
+
+end Route
+
 /-! ### L4: the detach / deepcopy / restore protocol on the source object
 
 `get_fantasy_model` temporarily sets four attributes of the *source* model to `None`, deep-copies it and puts the
